@@ -1,0 +1,355 @@
+// verif.rs - verification hooks (only with feature "verif"; off by default)
+//
+// H1: control port - read-only JSON snapshot of the volatile state taken under
+//     the state's own read lock.
+// H2: handler sentinel - detects a connection handler that unwinds.
+// H3: schedule perturbation at existing suspension points.
+//
+// Nothing here changes behaviour unless SIRC_VERIF_CTL / SIRC_VERIF_JITTER is set.
+
+use std::collections::HashSet;
+use std::net::SocketAddr;
+use std::sync::atomic::{AtomicU64, Ordering};
+use std::sync::Arc;
+use std::time::Duration;
+use tokio::io::{AsyncBufReadExt, AsyncWriteExt, BufReader};
+use tokio::net::TcpListener;
+
+use super::*;
+
+pub(super) static HANDLER_ABORTS: AtomicU64 = AtomicU64::new(0);
+pub(super) static HANDLERS_STARTED: AtomicU64 = AtomicU64::new(0);
+pub(super) static HANDLERS_FINISHED: AtomicU64 = AtomicU64::new(0);
+static WINDOWS_PASSED: AtomicU64 = AtomicU64::new(0);
+static JITTER_STATE: AtomicU64 = AtomicU64::new(0);
+
+fn esc(s: &str, out: &mut String) {
+    out.push('"');
+    for c in s.chars() {
+        match c {
+            '"' => out.push_str("\\\""),
+            '\\' => out.push_str("\\\\"),
+            '\n' => out.push_str("\\n"),
+            '\r' => out.push_str("\\r"),
+            '\t' => out.push_str("\\t"),
+            c if (c as u32) < 0x20 => out.push_str(&format!("\\u{:04x}", c as u32)),
+            c => out.push(c),
+        }
+    }
+    out.push('"');
+}
+
+fn str_list<'a, I: Iterator<Item = &'a String>>(it: I, out: &mut String) {
+    out.push('[');
+    let mut v = it.collect::<Vec<_>>();
+    v.sort();
+    for (i, s) in v.iter().enumerate() {
+        if i != 0 {
+            out.push(',');
+        }
+        esc(s, out);
+    }
+    out.push(']');
+}
+
+fn opt_set(s: &Option<HashSet<String>>, out: &mut String) {
+    match s {
+        Some(s) => str_list(s.iter(), out),
+        None => out.push_str("null"),
+    }
+}
+
+fn opt_str(s: &Option<String>, out: &mut String) {
+    match s {
+        Some(s) => esc(s, out),
+        None => out.push_str("null"),
+    }
+}
+
+fn b(v: bool) -> &'static str {
+    if v {
+        "true"
+    } else {
+        "false"
+    }
+}
+
+fn snapshot(main_state: &MainState, state: &VolatileState) -> String {
+    let mut o = String::with_capacity(4096);
+    o.push_str("{\"users\":{");
+    let mut nicks = state.users.keys().collect::<Vec<_>>();
+    nicks.sort();
+    for (i, n) in nicks.iter().enumerate() {
+        let u = state.users.get(*n).unwrap();
+        if i != 0 {
+            o.push(',');
+        }
+        esc(n, &mut o);
+        o.push_str(":{\"source\":");
+        esc(&u.source, &mut o);
+        o.push_str(",\"name\":");
+        esc(&u.name, &mut o);
+        o.push_str(",\"hostname\":");
+        esc(&u.hostname, &mut o);
+        o.push_str(",\"realname\":");
+        esc(&u.realname, &mut o);
+        o.push_str(&format!(
+            ",\"invisible\":{},\"oper\":{},\"local_oper\":{},\"registered\":{},\"wallops\":{}",
+            b(u.modes.invisible),
+            b(u.modes.oper),
+            b(u.modes.local_oper),
+            b(u.modes.registered),
+            b(u.modes.wallops)
+        ));
+        o.push_str(",\"away\":");
+        opt_str(&u.away, &mut o);
+        o.push_str(",\"channels\":");
+        str_list(u.channels.iter(), &mut o);
+        o.push_str(",\"invited_to\":");
+        str_list(u.invited_to.iter(), &mut o);
+        o.push_str(&format!(
+            ",\"killable\":{},\"sender_closed\":{}}}",
+            b(u.quit_sender.is_some()),
+            b(u.sender.is_closed())
+        ));
+    }
+    o.push_str("},\"channels\":{");
+    let mut chans = state.channels.keys().collect::<Vec<_>>();
+    chans.sort();
+    for (i, cn) in chans.iter().enumerate() {
+        let c = state.channels.get(*cn).unwrap();
+        if i != 0 {
+            o.push(',');
+        }
+        esc(cn, &mut o);
+        o.push_str(":{\"topic\":");
+        match &c.topic {
+            Some(t) => {
+                esc(&t.topic, &mut o);
+                o.push_str(",\"topic_nick\":");
+                esc(&t.nick, &mut o);
+            }
+            None => o.push_str("null,\"topic_nick\":null"),
+        }
+        let m = &c.modes;
+        o.push_str(&format!(
+            ",\"invite_only\":{},\"moderated\":{},\"secret\":{},\"protected_topic\":{},\
+             \"no_external_messages\":{},\"preconfigured\":{}",
+            b(m.invite_only),
+            b(m.moderated),
+            b(m.secret),
+            b(m.protected_topic),
+            b(m.no_external_messages),
+            b(c.preconfigured)
+        ));
+        o.push_str(",\"key\":");
+        opt_str(&m.key, &mut o);
+        o.push_str(",\"client_limit\":");
+        match m.client_limit {
+            Some(l) => o.push_str(&l.to_string()),
+            None => o.push_str("null"),
+        }
+        o.push_str(",\"ban\":");
+        opt_set(&m.ban, &mut o);
+        o.push_str(",\"exception\":");
+        opt_set(&m.exception, &mut o);
+        o.push_str(",\"invite_exception\":");
+        opt_set(&m.invite_exception, &mut o);
+        o.push_str(",\"founders\":");
+        opt_set(&m.founders, &mut o);
+        o.push_str(",\"protecteds\":");
+        opt_set(&m.protecteds, &mut o);
+        o.push_str(",\"operators\":");
+        opt_set(&m.operators, &mut o);
+        o.push_str(",\"half_operators\":");
+        opt_set(&m.half_operators, &mut o);
+        o.push_str(",\"voices\":");
+        opt_set(&m.voices, &mut o);
+        o.push_str(",\"ban_info\":");
+        str_list(c.ban_info.keys(), &mut o);
+        let d = &c.default_modes;
+        o.push_str(",\"default_modes\":{\"founders\":");
+        str_list(d.founders.iter(), &mut o);
+        o.push_str(",\"protecteds\":");
+        str_list(d.protecteds.iter(), &mut o);
+        o.push_str(",\"operators\":");
+        str_list(d.operators.iter(), &mut o);
+        o.push_str(",\"half_operators\":");
+        str_list(d.half_operators.iter(), &mut o);
+        o.push_str(",\"voices\":");
+        str_list(d.voices.iter(), &mut o);
+        o.push_str("},\"users\":{");
+        let mut members = c.users.keys().collect::<Vec<_>>();
+        members.sort();
+        for (j, mn) in members.iter().enumerate() {
+            let cu = c.users.get(*mn).unwrap();
+            if j != 0 {
+                o.push(',');
+            }
+            esc(mn, &mut o);
+            let mut f = String::new();
+            if cu.founder {
+                f.push('q');
+            }
+            if cu.protected {
+                f.push('a');
+            }
+            if cu.operator {
+                f.push('o');
+            }
+            if cu.half_oper {
+                f.push('h');
+            }
+            if cu.voice {
+                f.push('v');
+            }
+            o.push(':');
+            esc(&f, &mut o);
+        }
+        o.push_str("}}");
+    }
+    o.push_str("},\"wallops_users\":");
+    str_list(state.wallops_users.iter(), &mut o);
+    o.push_str(&format!(
+        ",\"invisible_users_count\":{},\"operators_count\":{},\"max_users_count\":{}",
+        state.invisible_users_count, state.operators_count, state.max_users_count
+    ));
+    o.push_str(",\"nick_histories\":{");
+    let mut hn = state.nick_histories.keys().collect::<Vec<_>>();
+    hn.sort();
+    for (i, n) in hn.iter().enumerate() {
+        if i != 0 {
+            o.push(',');
+        }
+        esc(n, &mut o);
+        o.push_str(":[");
+        for (j, e) in state.nick_histories.get(*n).unwrap().iter().enumerate() {
+            if j != 0 {
+                o.push(',');
+            }
+            o.push('[');
+            esc(&e.username, &mut o);
+            o.push(',');
+            esc(&e.hostname, &mut o);
+            o.push(',');
+            esc(&e.realname, &mut o);
+            o.push(']');
+        }
+        o.push(']');
+    }
+    o.push_str(&format!(
+        "}},\"conns_count\":{},\"handler_aborts\":{},\"handlers_started\":{},\
+         \"handlers_finished\":{},\"windows_passed\":{},\"command_counts\":{{",
+        main_state.conns_count.load(Ordering::SeqCst),
+        HANDLER_ABORTS.load(Ordering::SeqCst),
+        HANDLERS_STARTED.load(Ordering::SeqCst),
+        HANDLERS_FINISHED.load(Ordering::SeqCst),
+        WINDOWS_PASSED.load(Ordering::SeqCst)
+    ));
+    let mut first = true;
+    for (i, x) in CommandId::iter().enumerate() {
+        let count = main_state.command_counts[i].load(Ordering::SeqCst);
+        if count != 0 {
+            if !first {
+                o.push(',');
+            }
+            first = false;
+            esc(x.name, &mut o);
+            o.push_str(&format!(":{}", count));
+        }
+    }
+    o.push_str("}}");
+    o
+}
+
+async fn ctl_conn(main_state: Arc<MainState>, stream: tokio::net::TcpStream) {
+    let (rd, mut wr) = stream.into_split();
+    let mut lines = BufReader::new(rd).lines();
+    while let Ok(Some(line)) = lines.next_line().await {
+        let mut out = match line.trim() {
+            "SNAP" => {
+                let state = main_state.state.read().await;
+                snapshot(&main_state, &state)
+            }
+            "COUNTS" => format!(
+                "{{\"conns_count\":{},\"handler_aborts\":{}}}",
+                main_state.conns_count.load(Ordering::SeqCst),
+                HANDLER_ABORTS.load(Ordering::SeqCst)
+            ),
+            _ => "{\"error\":\"unknown\"}".to_string(),
+        };
+        out.push('\n');
+        if wr.write_all(out.as_bytes()).await.is_err() {
+            break;
+        }
+    }
+}
+
+// H1: spawn control listener if requested by environment.
+pub(super) fn spawn_ctl(main_state: Arc<MainState>) {
+    if let Some(port) = std::env::var("SIRC_VERIF_CTL")
+        .ok()
+        .and_then(|p| p.parse::<u16>().ok())
+    {
+        tokio::spawn(async move {
+            if let Ok(listener) = TcpListener::bind(("127.0.0.1", port)).await {
+                while let Ok((stream, _)) = listener.accept().await {
+                    let _ = stream.set_nodelay(true);
+                    tokio::spawn(ctl_conn(main_state.clone(), stream));
+                }
+            } else {
+                eprintln!("VERIF-CTL-BIND-FAILED port={}", port);
+            }
+        });
+    }
+}
+
+// H2: sentinel living as long as connection handler.
+pub(super) struct HandlerGuard {
+    addr: SocketAddr,
+}
+
+impl HandlerGuard {
+    pub(super) fn new(addr: SocketAddr) -> HandlerGuard {
+        HANDLERS_STARTED.fetch_add(1, Ordering::SeqCst);
+        HandlerGuard { addr }
+    }
+}
+
+impl Drop for HandlerGuard {
+    fn drop(&mut self) {
+        if std::thread::panicking() {
+            HANDLER_ABORTS.fetch_add(1, Ordering::SeqCst);
+            eprintln!("VERIF-HANDLER-ABORT peer={}", self.addr);
+        } else {
+            HANDLERS_FINISHED.fetch_add(1, Ordering::SeqCst);
+        }
+    }
+}
+
+// H3: yield (and optionally sleep a seeded random time) at a point where handler
+// does not hold state lock and next operation is awaiting for lock.
+pub(super) async fn window(_tag: &'static str) {
+    lazy_static::lazy_static! {
+        static ref JITTER: Option<(u64, u64)> = std::env::var("SIRC_VERIF_JITTER").ok().and_then(|v| {
+            let mut it = v.split(',');
+            let us = it.next()?.parse::<u64>().ok()?;
+            let seed = it.next().and_then(|s| s.parse::<u64>().ok()).unwrap_or(1);
+            Some((us, seed))
+        });
+    }
+    if let Some((max_us, seed)) = *JITTER {
+        WINDOWS_PASSED.fetch_add(1, Ordering::SeqCst);
+        let n = JITTER_STATE.fetch_add(0x9e3779b97f4a7c15, Ordering::SeqCst);
+        let mut x = n ^ seed.wrapping_mul(0xbf58476d1ce4e5b9);
+        x ^= x >> 30;
+        x = x.wrapping_mul(0xbf58476d1ce4e5b9);
+        x ^= x >> 27;
+        x = x.wrapping_mul(0x94d049bb133111eb);
+        x ^= x >> 31;
+        tokio::task::yield_now().await;
+        if max_us > 0 {
+            tokio::time::sleep(Duration::from_micros(x % (max_us + 1))).await;
+        }
+    }
+}
